@@ -687,6 +687,19 @@ pub(crate) fn openat2<Fd: AsFd, P: AsRef<Path>>(
     let mut how = how.clone();
     how.flags |= libc::O_CLOEXEC as u64;
 
+    // ToCString truncates at the first NUL byte, which would make the kernel
+    // resolve a different path than the one we were asked for. Reject such
+    // paths with EINVAL, like rustix does for every other syscall wrapper.
+    if path.as_os_str().as_bytes().contains(&b'\0') {
+        return Err(Error::Openat2 {
+            dirfd: dirfd.into(),
+            path: path.into(),
+            how,
+            size: std::mem::size_of::<OpenHow>(),
+            source: Errno::INVAL,
+        });
+    }
+
     // SAFETY: Obviously safe-to-use Linux syscall.
     let fd = unsafe {
         libc::syscall(
